@@ -122,11 +122,12 @@ CHECKS = {
         note="No deductive obligation: the setters are data()/__init__ round trips on object graphs. Supporting kernels are proved elsewhere (C09 names, C19 lemma, C05/C13 addresses)."),
     "C06": dict(
         level="other", design_ref="DESIGN.md 5/C06",
-        technique="bounded contract checking: parser fixed point at 12 object levels and for the config-level functions",
+        technique="contract on the text normaliser of every line setter (helpers.replace_spaces / init_line: same words, in order) discharged by own VC generator; "
+                  "bounded contract checking: parser fixed point at 12 object levels and for the config-level functions",
         text="X(obj.line, same configuration) renders the identical text and exports identical data (one step for native input; stable from the first re-parse for foreign "
              "spellings), for Port, Protocol, Option, Wildcard, Address, AddressAg, AddrGroup, Remark, Ace, AceGroup, Acl and acls/aces/addrgroups, over the gen_ace "
              "grammar x versions x switches, address spellings, odd remarks, standard ACLs, indent settings.",
-        note="Bounded only (regex constructors). Meaning of the rendered text is C01."),
+        note="The fixed-point statement itself is bounded (regex constructors); the deductive part covers only the normaliser they all start with. Meaning of the rendered text is C01."),
     "C07": dict(
         level="other", design_ref="DESIGN.md 5/C07",
         technique="bounded contract checking of acls()/addrgroups() against an independent line-oriented configuration reading",
